@@ -633,7 +633,7 @@ class Builder:
 PT_MODE = {"app": pt.Mode.Application, "sig": pt.Mode.Signature}
 
 
-def compile_real(prog: Program, version: int, *, assemble=False, scratch_slots=None, frame_pointers=None):
+def compile_real(prog: Program, version: int, *, assemble=False, scratch_slots=None, frame_pointers=None, options_obj=None):
     """Compile with the real code. Returns ('ok', teal) | ('err', class name, message) | ('crash', class name, message)."""
     import pyteal.errors as pe
     import signal
@@ -648,7 +648,7 @@ def compile_real(prog: Program, version: int, *, assemble=False, scratch_slots=N
     old = signal.signal(signal.SIGALRM, _alarm)
     signal.setitimer(signal.ITIMER_REAL, COMPILE_TIMEOUT_S)
     try:
-        return _compile_real(prog, version, own, assemble, scratch_slots, frame_pointers)
+        return _compile_real(prog, version, own, assemble, scratch_slots, frame_pointers, options_obj)
     except _Slow:
         # compile time is not part of any property (the optimiser's structural block comparison and
         # validateSlots are exponential on some shapes); counted, never alarmed on
@@ -661,7 +661,7 @@ def compile_real(prog: Program, version: int, *, assemble=False, scratch_slots=N
 COMPILE_TIMEOUT_S = 10
 
 
-def _compile_real(prog, version, own, assemble, scratch_slots, frame_pointers):
+def _compile_real(prog, version, own, assemble, scratch_slots, frame_pointers, options_obj=None):
     try:
         b = Builder(prog)
         ast = b.main()
@@ -673,6 +673,8 @@ def _compile_real(prog, version, own, assemble, scratch_slots, frame_pointers):
             if frame_pointers is not None:
                 okw["frame_pointers"] = frame_pointers
             kw["optimize"] = pt.OptimizeOptions(**okw)
+        if options_obj is not None:
+            kw["optimize"] = options_obj       # an OptimizeOptions object that other compilations have used before
         teal = pt.compileTeal(ast, PT_MODE[prog.mode], version=version, assembleConstants=assemble, **kw)
         return ("ok", teal)
     except own as e:
